@@ -172,6 +172,54 @@ def canon_graph(g, start=0):
     return edges
 
 
+def minimal_form(g, start=0):
+    """Canonical form of the LANGUAGE of a partial DFA in which every state accepts and a missing edge rejects: restrict to the
+    states reachable from `start`, merge states with the same continuation language (Moore partition refinement), renumber
+    breadth-first.  Two such automata accept the same language iff their minimal forms are equal; state names, state numbering,
+    vertex order, dict order and the number of states of the input do not matter."""
+    reach, todo = {start}, [start]
+    while todo:
+        v = todo.pop()
+        for t in g.get(v, {}).values():
+            if t not in reach:
+                reach.add(t)
+                todo.append(t)
+    block = {v: 0 for v in reach}
+    while True:
+        sig = {v: (block[v], tuple(sorted((repr(l), block[t]) for l, t in g.get(v, {}).items()))) for v in reach}
+        ids = {}
+        for v in sorted(reach, key=repr):
+            ids.setdefault(sig[v], len(ids))
+        new = {v: ids[sig[v]] for v in reach}
+        if len(ids) == len(set(block.values())):
+            break
+        block = new
+    q = {}
+    for v in reach:
+        q.setdefault(block[v], {l: block[t] for l, t in g.get(v, {}).items()})
+    return canon_graph(q, block[start])
+
+
+def start_of(aut):
+    return aut.start_vertices[0]
+
+
+def table_of(aut, names):
+    """transition table (rows = states renumbered breadth-first from the start state, columns = generator indices)"""
+    g = graph_of(aut, names)
+    ids, order = {start_of(aut): 0}, [start_of(aut)]
+    i = 0
+    while i < len(order):
+        for l in sorted(g.get(order[i], {})):
+            t = g[order[i]][l]
+            if t not in ids:
+                ids[t] = len(order)
+                order.append(t)
+        i += 1
+    n = len(names)
+    return [[(ids[g[v][k]] if k in g.get(v, {}) else None) for k in range(n)] for v in order]
+
+
 def table_graph(tab):
     return {s: {k: t for k, t in enumerate(row) if t is not None} for s, row in enumerate(tab)}
 
@@ -209,11 +257,16 @@ def run_aut(inp):
         return {"skipped": "large"}
     g = graph_of(aut, names)
     M = np.asarray(G.coxeter_matrix).tolist()
-    form = [[-math.cos(math.pi / m) if m > 0 else -1 for m in row] for row in M]
-    sr = CA.find_small_roots(form)
-    roots = [{"v": [float(x) for x in r.v], "nb": [x.id if x else None for x in r.neighbors]} for r in sr]
-    return {"M": M, "names": names, "edges": canon_graph(g), "nstates": len(aut.graph_dict), "roots": roots,
-            "starts": list(aut.start_vertices)}
+    # supporting evidence only (internal helper, may be reorganised freely): the small roots, if the helper still exists
+    roots = None
+    try:
+        form = [[-math.cos(math.pi / m) if m > 0 else -1 for m in row] for row in M]
+        sr = CA.find_small_roots(form)
+        roots = [{"v": [float(x) for x in r.v], "nb": [x.id if x else None for x in r.neighbors]} for r in sr]
+    except Exception:
+        pass
+    return {"M": M, "names": names, "minimal": minimal_form(g, start_of(aut)), "edges": canon_graph(g, start_of(aut)),
+            "nstates": len(aut.graph_dict), "roots": roots, "n_starts": len(aut.start_vertices)}
 
 
 def lean_aut(inp, obs):
@@ -235,30 +288,28 @@ def judge_aut(inp, obs, lr):
     Mx, names = X.expected_matrix_and_names(inp["spec"])
     if obs["M"] != Mx or obs["names"] != names:
         return {"expected": {"M": Mx, "names": names}, "observed": {"M": obs["M"], "names": obs["names"]}, "tags": {**tags, "constructor": True}}
-    if obs["starts"] != [0]:
-        return {"expected": "start state 0", "observed": obs["starts"], "tags": {**tags, "start": True}}
+    if obs["n_starts"] != 1:
+        return {"expected": "one start state", "observed": obs["n_starts"], "tags": {**tags, "start": True}}
     if not lr:
         return None      # too large for the interpreted model: counted in the evidence as not compared
     for r in lr:
         if "err" in r:
             return {"expected": "model automaton", "observed": r, "tags": {**tags, "driver_err": r["err"][:40]}}
     res = [r["ok"] for r in lr]
-    cg = [canon_graph(table_graph(r["table"])) for r in res]
-    if cg[1] != cg[2] or [x["nb"] for x in res[1]["roots"]] != [x["nb"] for x in res[2]["roots"]]:
+    mf = [minimal_form(table_graph(r["table"])) for r in res]
+    if mf[1] != mf[2]:
         return None      # near-threshold: the bracket runs disagree, case discarded
-    if len(res) == 4 and cg[3] != cg[0]:
+    if len(res) == 4 and mf[3] != mf[0]:
         return {"expected": "eps=0 and eps=1e-6 agree on rational forms", "observed": "they differ", "tags": {**tags, "eps0": True}}
-    mr = res[0]["roots"]
-    if [x["nb"] for x in mr] != [x["nb"] for x in obs["roots"]]:
-        return {"expected": {"small_roots.neighbors": [x["nb"] for x in mr]}, "observed": [x["nb"] for x in obs["roots"]],
-                "tags": {**tags, "what": "small_roots"}}
-    for a, b in zip(mr, obs["roots"]):
-        va = [float(F(x)) for x in a["v"]]
-        if max(abs(x - y) for x, y in zip(va, b["v"])) > 1e-9 * (1 + max(abs(x) for x in va)):
-            return {"expected": {"root": va}, "observed": b["v"], "tags": {**tags, "what": "root-vector"}}
-    if cg[0] != obs["edges"]:
-        return {"expected": {"nstates": res[0]["nstates"], "edges(BFS-renumbered)": cg[0][:40]},
-                "observed": {"nstates": obs["nstates"], "edges": obs["edges"][:40]}, "tags": {**tags, "what": "automaton"}}
+    # the tie is at the level of the accepted LANGUAGE: minimal DFA of the model = minimal DFA of the implementation
+    if mf[0] != obs["minimal"]:
+        same_roots = None
+        if obs.get("roots") is not None:
+            same_roots = [x["nb"] for x in res[0]["roots"]] == [x["nb"] for x in obs["roots"]]
+        return {"expected": {"minimal DFA of the model (BFS-renumbered)": mf[0][:40], "states_of_model": res[0]["nstates"]},
+                "observed": {"minimal DFA of the implementation": obs["minimal"][:40], "states": obs["nstates"],
+                             "supporting: small-root neighbour tables equal": same_roots},
+                "tags": {**tags, "what": "automaton-language"}}
     return None
 
 
@@ -281,13 +332,13 @@ def run_even(inp):
     if not done:
         return {"skipped": "even_automaton exceeded the CPU limit", "nstates": len(aut.graph_dict)}
     n = len(names)
-    tab = [[aut.graph_dict.get(s, {}).get(names[k]) for k in range(n)] for s in range(len(aut.graph_dict))]
+    tab = table_of(aut, names)
     lab = {names[a] + names[b]: a * n + b for a in range(n) for b in range(n)}
     unknown = sorted({str(l) for nb in ev.graph_dict.values() for l in nb if l not in lab})
     if unknown:
-        return {"table": tab, "even": None, "unknown_labels": unknown[:5], "starts": list(ev.start_vertices), "n": n}
+        return {"table": tab, "even": None, "unknown_labels": unknown[:5], "n": n}
     g = {v: {lab[l]: t for l, t in nb.items()} for v, nb in ev.graph_dict.items()}
-    return {"table": tab, "even": canon_graph(g), "starts": list(ev.start_vertices), "n": n}
+    return {"table": tab, "even": minimal_form(g, start_of(ev)), "n_starts": len(ev.start_vertices), "n": n}
 
 
 def lean_even(inp, obs):
@@ -308,8 +359,9 @@ def judge_even(inp, obs, lr):
         return {"expected": "model answer", "observed": lr[0], "tags": {"driver_err": lr[0]["err"][:40]}}
     n = obs["n"]
     g = {v: {a * n + b: t for a, b, t in es} for v, es in lr[0]["ok"]}
-    if canon_graph(g) != obs["even"] or obs["starts"] != [0]:
-        return {"expected": {"even(BFS-renumbered)": canon_graph(g)[:40]}, "observed": obs["even"][:40], "tags": {"what": "even"}}
+    if minimal_form(g, 0) != obs["even"] or obs["n_starts"] != 1:
+        return {"expected": {"minimal DFA of the model's even automaton": minimal_form(g, 0)[:40]}, "observed": obs["even"][:40],
+                "tags": {"what": "even-language"}}
     return None
 
 
@@ -613,46 +665,57 @@ def judge_lang(inp, obs, lr):
     return None
 
 
-# ---- rank 2: the hypothesis of the Lean theorems accepts_iff_reduced_rank2 / shortlex_rank2 -------------------
+# ---- rank 2: the conclusion of the Lean theorems accepts_iff_reduced_rank2 / shortlex_rank2, on the implementation --------
 def gen_r2(rng, n):
     for m in list(range(2, 13)) + [0, -1, -2]:
         yield {"m": m}
 
 
+def _dihedral_structure(m):
+    """supporting evidence only (internal helper, never a reason for a violation): does the implementation's small-root table
+    have the structure `DihedralNb m nb ang` that the Lean theorems assume?  None when the helper is not there any more."""
+    try:
+        c0 = -math.cos(math.pi / m) if m > 0 else -1
+        sr = CA.find_small_roots([[1.0, c0], [c0, 1.0]])
+        v = [[float(x) for x in r.v] for r in sr]
+        nb = [[x.id if x else None for x in r.neighbors] for r in sr]
+        if m <= 0:
+            return nb == [[None, None], [None, None]]
+        if len(nb) != m:
+            return False
+        c, s_ = math.cos(math.pi - math.pi / m), math.sin(math.pi - math.pi / m)
+        ang = [int(round(math.atan2(y * s_, x + y * c) * m / math.pi)) for x, y in v]
+        ok = ang[0] == 0 and ang[1] == m - 1 and sorted(ang) == list(range(m))
+        for p in range(m):
+            a = ang[p]
+            e0 = None if a == 0 else ang.index(m - a) if (m - a) in ang else "?"
+            e1 = None if a == m - 1 else ang.index(m - 2 - a) if (m - 2 - a) in ang else "?"
+            ok = ok and nb[p] == [e0, e1]
+        return bool(ok)
+    except Exception:
+        return None
+
+
 def run_r2(inp):
+    from geometry_tools import coxeter
     m = inp["m"]
-    form = [[1.0, -math.cos(math.pi / m) if m > 0 else -1], [-math.cos(math.pi / m) if m > 0 else -1, 1.0]]
-    sr = CA.find_small_roots(form)
-    return {"v": [[float(x) for x in r.v] for r in sr], "nb": [[x.id if x else None for x in r.neighbors] for r in sr]}
+    G = coxeter.CoxeterGroup(matrix=np.array([[1, m], [m, 1]]))
+    names = list(G.ordered_gens)
+    L = (m + 3) if m > 0 else 14
+    alt = lambda a, l: tuple((a + i) % 2 for i in range(l))
+    geo = {alt(a, l) for a in (0, 1) for l in range(L + 1) if m <= 0 or l <= m}
+    lex = {w for w in geo if not (m > 0 and len(w) == m and w[0] == 1)}
+    return {"geo_ok": accepted(G.automaton(shortlex=False), names, L) == geo,
+            "lex_ok": accepted(G.automaton(shortlex=True), names, L) == lex,
+            "supporting_DihedralNb": _dihedral_structure(m)}
 
 
 def judge_r2(inp, obs, lr):
-    """DihedralNb m nb ang: nb is the action of s0, s1 on the m positive roots indexed by their angle (in units of pi/m
-    from alpha_0), alpha_0 -> 0, alpha_1 -> m-1;  s0: a -> m-a (a != 0), s1: a -> m-2-a (a != m-1).  For m = inf: two roots,
-    no neighbours (the hypothesis of accepts_iff_reduced_rank2_inf)."""
     if "exc" in obs:
-        return {"expected": "small roots", "observed": obs, "tags": {"exc": obs["exc"]}}
-    m, nb, v = inp["m"], obs["nb"], obs["v"]
-    tags = {"m": m}
-    if m <= 0:
-        if nb != [[None, None], [None, None]]:
-            return {"expected": "two small roots without neighbours", "observed": nb, "tags": tags}
-        return None
-    if len(nb) != m:
-        return {"expected": f"{m} small roots", "observed": len(nb), "tags": tags}
-    c, s_ = math.cos(math.pi - math.pi / m), math.sin(math.pi - math.pi / m)      # alpha_1 at angle (m-1) pi/m
-    ang = []
-    for x, y in v:
-        px, py = x + y * c, y * s_
-        ang.append(int(round(math.atan2(py, px) * m / math.pi)))
-    ok = ang[0] == 0 and ang[1] == m - 1 and sorted(ang) == list(range(m))
-    for p in range(m):
-        a = ang[p]
-        e0 = None if a == 0 else ang.index(m - a) if (m - a) in ang else "?"
-        e1 = None if a == m - 1 else ang.index(m - 2 - a) if (m - 2 - a) in ang else "?"
-        ok = ok and nb[p] == [e0, e1]
-    if not ok:
-        return {"expected": "DihedralNb m nb ang (reflection action on the roots by angle)", "observed": {"ang": ang, "nb": nb}, "tags": tags}
+        return {"expected": "automata of a dihedral group", "observed": obs, "tags": {"exc": obs["exc"], "m": inp["m"]}}
+    if not (obs["geo_ok"] and obs["lex_ok"]):
+        return {"expected": "rank 2 (proved for the model): geodesic = alternating words of length <= m; shortlex = the same minus "
+                            "the word 1 0 1 ... of length m", "observed": obs, "tags": {"m": inp["m"], "what": "rank2-language"}}
     return None
 
 
@@ -676,8 +739,8 @@ def _aut_graph(aut, names, even):
     g = {}
     for v, nb in aut.graph_dict.items():
         g[v] = {(lab[l] if l in lab else "?" + str(l)): t for l, t in nb.items()}
-    return [canon_graph(g) if all(not isinstance(l, str) for nb in g.values() for l in nb) else sorted(map(str, g.items())),
-            list(aut.start_vertices)]
+    return [minimal_form(g, start_of(aut)) if all(not isinstance(l, str) for nb in g.values() for l in nb)
+            else sorted(map(str, g.items())), len(aut.start_vertices)]
 
 
 def run_session(inp):
@@ -881,18 +944,18 @@ def judge_naming(inp, obs, lr):
 
 CLAUSES = [
     Clause("automaton_corr", "corr", gen_aut, run_aut, judge_aut, lean=lean_aut,
-           site="coxeter.CoxeterGroup.automaton / coxeter_automaton.find_small_roots, generate_automaton",
+           site="coxeter.CoxeterGroup.automaton",
            budget={"quick": 100, "thorough": 1000},
            what="small roots (vectors, neighbours) and automaton (up to BFS renumbering) vs the Lean model over Q; all rank-2/3 "
                 "matrices over {2..7,inf} up to relabelling (inf written 0/-1/-3), samples of rank 4-5, both constructor routes"),
     Clause("even_corr", "corr", gen_even, run_even, judge_even, lean=lean_even,
            site="coxeter.CoxeterGroup.automaton(even_length=True) / fsa.automaton_multiple", budget={"quick": 80, "thorough": 800},
            what="even_automaton of the implementation's table vs Lean evenAutomaton (up to BFS renumbering)"),
-    Clause("rank2_hypothesis_oracle", "oracle", gen_r2, run_r2, judge_r2, site="coxeter_automaton.find_small_roots",
+    Clause("rank2_hypothesis_oracle", "oracle", gen_r2, run_r2, judge_r2, site="coxeter.CoxeterGroup.automaton (rank 2)",
            budget={"quick": 14, "thorough": 14},
-           what="the hypothesis DihedralNb of the Lean rank-2 theorems (central clause PROVED for rank 2) holds of the "
-                "implementation's small roots for m = 2..12 and infinity (0/-1/-2): a test of the one link that is not proved "
-                "for irrational cosines"),
+           what="the CONCLUSION of the Lean rank-2 theorems (central clause proved for the model) on the implementation's automata for "
+                "m = 2..12 and infinity (0/-1/-2), through the public API; whether the internal small-root table has the assumed "
+                "DihedralNb structure is recorded as supporting evidence only"),
     Clause("session_oracle", "oracle", gen_session, run_session, judge_session, site="coxeter.CoxeterGroup.automaton (sessions)",
            budget={"quick": 150, "thorough": 1500},
            what="generic defences G1-G4: interleaved automaton requests (shortlex x even_length) on 2-3 groups of rank 2-3 built from "
